@@ -3,7 +3,7 @@
 import json, sys, os
 pid, needs = sys.argv[1], sys.argv[2]
 hist = sys.argv[3] if len(sys.argv) > 3 else ""
-d = "/verif/seeded/%s" % pid
+d = "/verif/seeded/%s%s" % (pid, os.environ.get("SEED_TAG", ""))
 e = json.load(open(d + "/eval.json"))
 m = {"property": pid, "breaks": "see notes.md", "needs_to_manifest": needs,
      "produced_by": "independent sub-agent given only the property text and a scratch worktree",
